@@ -60,6 +60,15 @@ def tasks(tier):
                    handler_durs=[0, 2, 5], deadline=4, durs=[0, 1], max_unknown=None,
                    strat_menu=[1, 0], before_sleep="call")
         out.append({"family": "protocol-slow-handler", "cfg": cfg, "entry": e, "bound": 2})
+    # before_sleep raising (at one invocation or always) must not change the protocol
+    for hd, e, idx, bs_async in itertools.product([None, "call"], SYNC[:2] + ASYNC[:2],
+                                                  [0, 1, "always"], [False, True]):
+        if bs_async and not e.startswith("Async"):
+            continue
+        cfg = dict(M=3, alphabet=["x:T", "ok", "r:T"], handler=hd, handler_free=True,
+                   before_sleep="call", bs_async=bs_async, max_unknown=None,
+                   faults=[("before_sleep", idx, "RuntimeError")])
+        out.append({"family": "protocol-hook-fault", "cfg": cfg, "entry": e, "bound": 0})
     # invalid handler return value must not be taken for a decision
     cfg = dict(M=3, alphabet=["x:T"], handler="call", handler_menu=["BAD"], max_unknown=None)
     for e in ["Retry.call", "AsyncRetry.call"]:
